@@ -5,6 +5,9 @@ the handlers that enclose them), unit-id field positions, the dispatch is exhaus
 normaliser can return and every branch files exactly one object of the matching class in its own list, dictionary
 keys written = keys read, BaseInteractions arguments in field order, normaliser steps update the string they test,
 DSSR: exact membership guard, pair filter, consecutive stack members, name matching.
+
+Fact-level rules first (checks/c19e.py: the import evaluated on one listing per class of line, the matchers on one id per
+class, in the abstract world of sa/world.py); the pinned forms in this file are only the fallback when that is not possible.
 """
 from __future__ import annotations
 
@@ -17,6 +20,7 @@ from sa import astq
 from sa.consteval import Folder
 from sa.flow import FlowMap, facts
 from sa.model import AnalysisError, FuncInfo, norm
+from sa.world import EnumStub  # noqa: F401  (kept under this name for rules that import it from here)
 
 M = "adapter"
 STACK_LABELS = {"s33": "downward", "s55": "upward", "s35": "outward", "s53": "inward"}  # as coded at the pinned commit (FR3D: s<face of nt1><face of nt2>)
@@ -97,6 +101,16 @@ def check_fr3d(chk) -> None:
     chk.expect(inner <= {"ValueError", "IndexError"}, "fr3d-total", pu.where, f"parse_unit_id can raise {sorted(inner)}", f"parse_unit_id can raise {sorted(inner)}", K(pu, "may-raise"))
     esc_u = may_raise(repo, uc)
     chk.expect(not esc_u, "fr3d-total", uc.where, "label normalisation cannot raise (Enum lookups are under KeyError handlers)", f"{sorted(esc_u)} can escape unify_classification", K(uc, "escapes"), found=sorted(esc_u))
+    bi = repo.cls("common", "BaseInteractions")
+    fields = [norm(b.annotation) for b in bi.body if isinstance(b, ast.AnnAssign)]
+    chk.expect(fields == ["List[BasePair]", "List[Stacking]", "List[BaseRibose]", "List[BasePhosphate]", "List[OtherInteraction]"], "result-fields", "src/rnapolis/common.py BaseInteractions", "BaseInteractions fields in the order the adapters rely on", "BaseInteractions field order/types changed", "common:BaseInteractions:fields", found=fields)
+    # fact-level rules first (checks/c19e.py): the import evaluated on one listing per class of line; the pinned forms below are only the fallback
+    from checks import c19e
+
+    why = c19e.fr3d_facts(chk, label_cases())
+    if why is None:
+        return
+    chk.ok("fr3d-facts", pf.where, f"fact-level reading not possible ({why[:160]}); falling back to the pinned forms")
     body = pl.node.body
     real = [s for s in body if not (isinstance(s, ast.Expr) and isinstance(s.value, ast.Constant))]
     ok = len(real) == 1 and isinstance(real[0], ast.Try) and not any(isinstance(n, ast.Raise) for h in real[0].handlers for n in ast.walk(h))
@@ -143,9 +157,6 @@ def check_fr3d(chk) -> None:
     order = [DISPATCH[c][1] for c in ("base-pair", "stacking", "base-ribose", "base-phosphate", "other")]
     ok = lit is not None and sorted(lit) == sorted(order) and len(rets) == 1 and flat(rets[0].value) == flat("BaseInteractions(" + ", ".join(f"interactions_data['{k}']" for k in order) + ")")
     chk.expect(ok, "result-fields", pf.where, "the five lists are created under the keys the dispatch writes and passed to BaseInteractions in field order", "interactions_data keys / BaseInteractions argument order do not match (basePairs, stackings, baseRibose, basePhosphate, other)", K(pf, "fields"))
-    bi = repo.cls("common", "BaseInteractions")
-    fields = [norm(b.annotation) for b in bi.body if isinstance(b, ast.AnnAssign)]
-    chk.expect(fields == ["List[BasePair]", "List[Stacking]", "List[BaseRibose]", "List[BasePhosphate]", "List[OtherInteraction]"], "result-fields", "src/rnapolis/common.py BaseInteractions", "BaseInteractions fields in the order the adapters rely on", "BaseInteractions field order/types changed", "common:BaseInteractions:fields", found=fields)
 
 
 def check_normaliser(chk) -> None:
@@ -194,19 +205,28 @@ def check_normaliser(chk) -> None:
     chk.expect(isinstance(last, ast.Return) and norm(last.value) == "('other', None)", "normaliser-steps", uc.where, "an unrecognised label is kept as 'other'", "the final fallback is not ('other', None)", K(uc, "fallback"))
 
 
-def check_dssr(chk) -> None:
+def check_dssr(chk, evaluated: bool = False) -> None:
+    """`evaluated`: dssr-eval could read the pair / stack loops and the result (then the pinned result form is not consulted)."""
+    from checks import c19e
+
     repo = chk.repo
     ml = repo.func(M, "match_dssr_lw")
     mn = repo.func(M, "match_dssr_name_to_residue")
     pd_ = repo.func(M, "parse_dssr_output")
     for fi in (ml, mn, pd_):
         chk.note_function(fi)
-    rets = [r for r in ml.node.body if isinstance(r, ast.Return)]
-    ok = len(rets) == 1 and norm(rets[0].value) in ("LeontisWesthof[lw] if lw in LeontisWesthof.__members__ else None",)
-    chk.expect(ok, "guard-exact", ml.where, "the Enum lookup is guarded by membership in LeontisWesthof.__members__ (exact for E[name])", "the guard of LeontisWesthof[lw] is not `lw in LeontisWesthof.__members__`: names that pass the guard but are not members raise KeyError (or members are rejected)", K(ml, "guard"), found=[norm(r.value) for r in rets])
-    t = [flat(s) for s in mn.node.body]
-    ok = t == [flat("if nt_id is not None:\n    nt_id = nt_id.split(':')[-1]\n    for residue in structure3d.residues:\n        if residue.full_name == nt_id:\n            return residue\n    logging.warning(f'Failed to find residue {nt_id}')"), flat("return None")]
-    chk.expect(ok, "dssr-name", mn.where, "a DSSR id resolves to the residue whose full name equals the part after the model prefix", "DSSR name matching changed (strip model prefix, exact full_name equality, None otherwise)", K(mn, "match"))
+    why = c19e.dssr_lw_facts(chk)
+    if why is not None:
+        chk.ok("dssr-facts", ml.where, f"fact-level reading of match_dssr_lw not possible ({why[:120]}); falling back to the pinned form")
+        rets = [r for r in ml.node.body if isinstance(r, ast.Return)]
+        ok = len(rets) == 1 and norm(rets[0].value) in ("LeontisWesthof[lw] if lw in LeontisWesthof.__members__ else None",)
+        chk.expect(ok, "guard-exact", ml.where, "the Enum lookup is guarded by membership in LeontisWesthof.__members__ (exact for E[name])", "the guard of LeontisWesthof[lw] is not `lw in LeontisWesthof.__members__`: names that pass the guard but are not members raise KeyError (or members are rejected)", K(ml, "guard"), found=[norm(r.value) for r in rets])
+    why = c19e.dssr_name_facts(chk)
+    if why is not None:
+        chk.ok("dssr-facts", mn.where, f"fact-level reading of match_dssr_name_to_residue not possible ({why[:120]}); falling back to the pinned form")
+        t = [flat(s) for s in mn.node.body]
+        ok = t == [flat("if nt_id is not None:\n    nt_id = nt_id.split(':')[-1]\n    for residue in structure3d.residues:\n        if residue.full_name == nt_id:\n            return residue\n    logging.warning(f'Failed to find residue {nt_id}')"), flat("return None")]
+        chk.expect(ok, "dssr-name", mn.where, "a DSSR id resolves to the residue whose full name equals the part after the model prefix", "DSSR name matching changed (strip model prefix, exact full_name equality, None otherwise)", K(mn, "match"))
     loops = [l for l in pd_.node.body if isinstance(l, ast.For)]
     pl = [l for l in loops if norm(l.iter) == "dssr.get('pairs', [])"]
     ok = len(pl) == 1 and [flat(s) for s in pl[0].body] == [
@@ -225,44 +245,28 @@ def check_dssr(chk) -> None:
             i = norm(b[1].target)
             ok = [flat(s) for s in b[1].body] == [flat(f"nt1 = nts[{i} - 1]"), flat(f"nt2 = nts[{i}]"), flat("if nt1 is not None and nt2 is not None:\n    stackings.append(Stacking(nt1, nt2, None))")]
     chk.expect(ok, "dssr-stacks", pd_.where, "consecutive members (i-1, i) of a stack are paired when both resolve; an unresolved member breaks the chain", "DSSR stacks are not turned into Stacking(nts[i-1], nts[i]) for consecutive positions with both resolved (unresolved members must not be skipped over)", K(pd_, "stacks"))
-    rets = [r for r in pd_.node.body if isinstance(r, ast.Return)]
-    chk.expect(len(rets) == 1 and norm(rets[0].value) == "BaseInteractions(base_pairs, stackings, [], [], [])", "result-fields", pd_.where, "DSSR result = BaseInteractions(pairs, stackings, [], [], [])", "DSSR result fields changed", K(pd_, "result"))
-
-
-class EnumStub:
-    """Enum class stand-in for block evaluation: E[name] (KeyError), E.name, E(value) (ValueError), E.__members__."""
-
-    _folder_stub = True
-
-    def __init__(self, cls: str, members: Dict[str, Any]):
-        object.__setattr__(self, "_cls", cls)
-        object.__setattr__(self, "_members", {k: (cls, k) for k in members})
-        object.__setattr__(self, "_by_value", {v: (cls, k) for k, v in members.items()})
-        object.__setattr__(self, "__members__", self._members)
-        for k in members:
-            object.__setattr__(self, k, (cls, k))
-
-    def __getitem__(self, k):
-        return self._members[k]
-
-    def __call__(self, v):
-        if v not in self._by_value:
-            raise ValueError(f"{v!r} is not a valid {self._cls}")
-        return self._by_value[v]
-
-    def __contains__(self, x):
-        return x in self._members.values()
-
-    def __iter__(self):
-        return iter(self._members.values())
+    if not evaluated:  # dssr-eval reads the result itself: BaseInteractions(<pairs>, <stackings>, [], [], [])
+        rets = [r for r in pd_.node.body if isinstance(r, ast.Return)]
+        chk.expect(len(rets) == 1 and norm(rets[0].value) == "BaseInteractions(base_pairs, stackings, [], [], [])", "result-fields", pd_.where, "DSSR result = BaseInteractions(pairs, stackings, [], [], [])", "DSSR result fields changed", K(pd_, "result"))
 
 
 def enum_stubs(repo) -> Dict[str, EnumStub]:
-    out = {}
-    for en in ("LeontisWesthof", "BR", "BPh", "StackingTopology", "Saenger"):
-        mem = {k: Folder(repo, "common").try_fold(v) for k, v in repo.enum_members("common", en).items()}
-        out[en] = EnumStub(en, mem)
-    return out
+    from sa.world import enum_stub
+
+    return {en: enum_stub(repo, "common", en) for en in ("LeontisWesthof", "BR", "BPh", "StackingTopology", "Saenger")}
+
+
+def label_cases() -> Dict[str, Any]:
+    """One label per class of the label language -> (category, class) the statement gives."""
+    lw = lambda n: ("base-pair", ("LeontisWesthof", n))
+    return {
+        "cWW": lw("cWW"), "tHS": lw("tHS"), "cww": lw("cWW"), "tSs": lw("tSS"), "THs": lw("tHS"), "ncWW": lw("cWW"), "cWWa": lw("cWW"), "ncWWa": lw("cWW"), "ntsh": lw("tSH"), "tWHa": lw("tWH"),
+        "s33": ("stacking", ("StackingTopology", STACK_LABELS["s33"])), "s55": ("stacking", ("StackingTopology", STACK_LABELS["s55"])), "s35": ("stacking", ("StackingTopology", STACK_LABELS["s35"])), "s53": ("stacking", ("StackingTopology", STACK_LABELS["s53"])),
+        "ns35": ("stacking", ("StackingTopology", STACK_LABELS["s35"])), "s53a": ("stacking", ("StackingTopology", STACK_LABELS["s53"])),
+        "0BR": ("base-ribose", ("BR", "_0")), "7BR": ("base-ribose", ("BR", "_7")), "n3BR": ("base-ribose", ("BR", "_3")), "9BR": ("base-ribose", ("BR", "_9")),
+        "0BPh": ("base-phosphate", ("BPh", "_0")), "9BPh": ("base-phosphate", ("BPh", "_9")), "n4BPh": ("base-phosphate", ("BPh", "_4")), "6BPha": ("base-phosphate", ("BPh", "_6")),
+        "xyz": ("other", None), "": ("other", None), "cXY": ("other", None), "s36": ("other", None), "perp": ("other", None), "cW": ("other", None), "n": ("other", None), "BPh": ("other", None), "tWWW": ("other", None),
+    }
 
 
 def check_normaliser_eval(chk) -> None:
@@ -273,20 +277,14 @@ def check_normaliser_eval(chk) -> None:
     repo = chk.repo
     uc = repo.func(M, "unify_classification")
     p = uc.node.args.args[0].arg
-    stubs = enum_stubs(repo)
-    lw = lambda n: ("base-pair", ("LeontisWesthof", n))
-    cases = {
-        "cWW": lw("cWW"), "tHS": lw("tHS"), "cww": lw("cWW"), "tSs": lw("tSS"), "THs": lw("tHS"), "ncWW": lw("cWW"), "cWWa": lw("cWW"), "ncWWa": lw("cWW"), "ntsh": lw("tSH"), "tWHa": lw("tWH"),
-        "s33": ("stacking", ("StackingTopology", STACK_LABELS["s33"])), "s55": ("stacking", ("StackingTopology", STACK_LABELS["s55"])), "s35": ("stacking", ("StackingTopology", STACK_LABELS["s35"])), "s53": ("stacking", ("StackingTopology", STACK_LABELS["s53"])),
-        "ns35": ("stacking", ("StackingTopology", STACK_LABELS["s35"])), "s53a": ("stacking", ("StackingTopology", STACK_LABELS["s53"])),
-        "0BR": ("base-ribose", ("BR", "_0")), "7BR": ("base-ribose", ("BR", "_7")), "n3BR": ("base-ribose", ("BR", "_3")), "9BR": ("base-ribose", ("BR", "_9")),
-        "0BPh": ("base-phosphate", ("BPh", "_0")), "9BPh": ("base-phosphate", ("BPh", "_9")), "n4BPh": ("base-phosphate", ("BPh", "_4")), "6BPha": ("base-phosphate", ("BPh", "_6")),
-        "xyz": ("other", None), "": ("other", None), "cXY": ("other", None), "s36": ("other", None), "perp": ("other", None), "cW": ("other", None), "n": ("other", None), "BPh": ("other", None), "tWWW": ("other", None),
-    }
+    from sa.world import build
+
+    world = build(repo, M)  # Enum classes, dataclass constructors and the module's own functions: the same abstract world for the body and for the module-level tables it reads
+    cases = label_cases()
     bad = {}
     try:
         for label, want in cases.items():
-            ev = BlockEval(repo, M, dict(stubs, **{p: label}))
+            ev = BlockEval(repo, M, {p: label}, world=world)
             kind, val = ev.run(uc.node.body)
             if kind != "return" or val != want:
                 bad[label] = (kind, val)
@@ -306,8 +304,8 @@ def check_normaliser_eval(chk) -> None:
         chk.violation("normaliser-eval", uc.where, f"unify_classification raises {type(ex).__name__} ({ex}) for one of the label classes: the line (or the whole import) is lost", K(uc, "normaliser-raises"))
 
 
-def check_dssr_eval(chk) -> None:
-    """The pair and stack loops of parse_dssr_output evaluated on documents covering the cases resolved / unresolved member, known / unknown class."""
+def check_dssr_eval(chk) -> bool:
+    """True when the fragment could be evaluated.  The pair and stack loops of parse_dssr_output evaluated on documents covering the cases resolved / unresolved member, known / unknown class."""
     from sa.blockeval import BlockEval, Unknown
 
     repo = chk.repo
@@ -336,7 +334,7 @@ def check_dssr_eval(chk) -> None:
     first = pd_.node.body.index(loops[0]) if loops else None
     if first is None:
         chk.error("dssr-eval", pd_.where, "pair/stack loops of parse_dssr_output not found")
-        return
+        return False
     # the statements that initialise the result lists come before the first loop; the document is bound to the name the loops read
     docname = None
     for c2 in ast.walk(loops[0].iter):
@@ -345,11 +343,11 @@ def check_dssr_eval(chk) -> None:
     inits = [s2 for s2 in pd_.node.body[:first] if isinstance(s2, (ast.Assign, ast.AnnAssign)) and isinstance(getattr(s2, "value", None), (ast.List,))]
     if docname is None:
         chk.error("dssr-eval", pd_.where, "name of the parsed document not found")
-        return
+        return False
     bad = []
     try:
         for doc, want_pairs, want_stacks in docs:
-            ev = BlockEval(repo, M, dict(env0, **{docname: doc}))
+            ev = BlockEval(repo, M, {docname: doc}, world=env0)
             kind, val = ev.run(inits + pd_.node.body[first:])
             if kind != "return" or not (isinstance(val, tuple) and val[:1] == ("BaseInteractions",) and len(val) == 6):
                 bad.append((doc, f"result {kind}: {val!r}"[:120]))
@@ -371,26 +369,32 @@ def check_dssr_eval(chk) -> None:
         )
     except Unknown as ex:
         chk.error("dssr-eval", pd_.where, f"parse_dssr_output loops not evaluable: {ex}")
+        return False
     except Exception as ex:
         chk.violation("dssr-eval", pd_.where, f"parse_dssr_output raises {type(ex).__name__} ({ex}) on one of the documents", K(pd_, "dssr-raises"))
+    return True
 
 
 def run(chk) -> None:
     chk.explanation = (
-        "Static rules on adapter.py: a small may-raise analysis (int()/float() of strings, constant subscripts of split() results without an exact length guard, Enum subscripts, explicit raises, "
-        "callees of the same module) minus enclosing handlers shows nothing escapes the per-line path; unit-id field positions; the category literals returned by the normaliser equal the ones "
-        "dispatched, each branch appends one object of the matching class to its own list; keys written = keys read; BaseInteractions arguments in field order; every normalisation step rewrites "
-        "the working label from itself, in the pinned order; DSSR guard exactness, pair filter, consecutive stack members, name matching."
+        "Static rules on adapter.py. For all inputs: a small may-raise analysis (int()/float() of strings, constant subscripts of split() results without an exact length guard, Enum subscripts, "
+        "explicit raises, callees of the same module) minus enclosing handlers shows nothing escapes the per-line path. Per class of input (fragment evaluation, DESIGN 1.2 item 4, in the abstract "
+        "world of sa/world.py: Enum classes, dataclass constructors, the module's own functions as inlined ast, module-level tables folded in the same world): parse_unit_id on unit ids of every field "
+        "count; parse_fr3d_output on one listing per category the evaluated normaliser returns (exactly one object of the class of the category, between the residues of column 1 and 3, in the "
+        "BaseInteractions field of that element type), on comment / blank / malformed lines (skipped, nothing raised, later lines kept) and on several lines (file order); unify_classification on one "
+        "label per class of the label language; match_dssr_lw on every member name and on non-members; match_dssr_name_to_residue on exact / model-prefixed / prefix / unknown / missing ids; the pair and "
+        "stack loops of parse_dssr_output on five documents. The pinned forms of these constructs are consulted only where the evaluation is not possible."
     )
     chk.trusted = ["CPython ast", "orjson.loads / file I/O errors are outside the statement", "stacking label table as coded (what FR3D's four labels denote is not decided)"]
     chk.assumptions = ["the label language as a set of strings is not enumerated (that would be execution); only the structure of the normaliser is decided"]
-    chk.robust |= {"fr3d-total", "dispatch-exhaustive", "normaliser-eval", "dssr-eval", "guard-exact", "normaliser-self-update"}
+    # evidence rules; unit-id, line-fields, dispatch-*, result-fields, fr3d-lines, dssr-name, guard-exact are evidence rules too whenever
+    # their fact-level reading (checks/c19e.py) is possible, and form rules in the fallback
+    chk.robust |= {"fr3d-total", "normaliser-eval", "dssr-eval", "normaliser-self-update"}
     chk.superseded.update({"normaliser-steps": "normaliser-eval", "normaliser-backbone": "normaliser-eval", "normaliser-stacking": "normaliser-eval", "normaliser-lw": "normaliser-eval", "dssr-pairs": "dssr-eval", "dssr-stacks": "dssr-eval"})
     check_fr3d(chk)
     check_normaliser(chk)
     check_normaliser_eval(chk)
-    check_dssr(chk)
-    check_dssr_eval(chk)
+    check_dssr(chk, check_dssr_eval(chk))
     for rule, n in (("fr3d-total", 4), ("dispatch-branch", 5), ("dispatch-exhaustive", 1), ("guard-exact", 1), ("dssr-stacks", 1)):
         chk.floor(rule, n)
 
